@@ -6,8 +6,8 @@
     envelope as it is. *)
 From GV Require Export World.
 
-Inductive rootop := RAddKey (k : key) | RRemoveKey (k : key) | RSetThreshold (t : Z) | RSign | RApply.
-Inductive apierr := EUnauthorized | ECannotMeet | EInvalidThreshold | EApplyRefused.
+Inductive rootop := RAddKey (k : key) | RRemoveKey (k : key) | RSetThreshold (t : Z) | RSign | RApply | RInit.
+Inductive apierr := EUnauthorized | ECannotMeet | EInvalidThreshold | EApplyRefused | EReinit.
 
 Definition kmem (k : key) (l : list key) : bool := existsb (N.eqb k) l.
 Definition kadd (k : key) (l : list key) : list key := if kmem k l then l else l ++ [k].
@@ -20,12 +20,13 @@ Definition set_root (ps : pstate) (keys : list key) (thr : Z) (signers : list ke
      ps_root_signers := signers; ps_files := ps_files ps; ps_globals := ps_globals ps |}.
 
 Definition is_edit (o : rootop) : bool :=
-  match o with RAddKey _ | RRemoveKey _ | RSetThreshold _ => true | RSign | RApply => false end.
+  match o with RAddKey _ | RRemoveKey _ | RSetThreshold _ => true | RSign | RApply | RInit => false end.
 
 (** one mutator call on the staged state [ps] *)
 Definition root_edit (ps : pstate) (signer : key) (o : rootop) : apierr + pstate :=
   match o with
   | RApply => inr ps
+  | RInit => inl EReinit          (* InitializeRoot on a repository that has a root of trust, whoever calls it *)
   | RSign => inr (set_root ps (ps_root_keys ps) (ps_root_thr ps) (kadd signer (ps_root_signers ps)) false)
   | _ =>
       if negb (kmem signer (ps_root_keys ps)) then inl EUnauthorized
